@@ -14,6 +14,7 @@ import io
 import math
 
 import numpy as np
+import quaternion
 
 from .. import par
 from .. import exactfam as E
@@ -124,14 +125,41 @@ def _misc(args):
         ev.append({"tid": tid, "ev": "Return", "finite": bool(np.all(np.isfinite(vf))), "unit_units": units(abs(ofro(vf) - 1.0), 1.0, 4 * n),
                    "ev_excess_units": units(max(0.0, float(e) - s2), max(s2, 1e-300), 4 * n), "hermitian_gap": False,
                    "everr_lg": 0, "resid_lg": 0, "bound_lg": 0, "stopped_at": -1})
-        with contextlib.redirect_stdout(io.StringIO()):
-            out = u.power_iteration_nonhermitian(q_from_float(A), max_iterations=300, seed=seed + t)
-        qv, lamc = out[0], out[1]
-        qf = q_to_float(np.asarray(qv)).reshape(-1, 4)
-        ev.append({"tid": tid, "ev": "NonHerm", "unit_units": units(abs(float(np.sqrt(np.sum(qf ** 2))) - 1.0), 1.0, 4 * n),
-                   "hermitian": bool(herm), "eig_real": bool(abs(complex(lamc).imag) <= 1e-12 * max(1.0, abs(complex(lamc)))),
-                   "shape_ok": bool(qf.shape[0] == n)})
-        meta[tid] = {"A": A.tolist(), "hermitian": herm}
+        # the complex-adjoint variant under every combination of its options; also complex-embedded input
+        # (block-diagonal adjoint) and power-of-two scaled input
+        variants = [A]
+        if not herm:
+            Ce = np.zeros_like(A)
+            Ce[..., 0], Ce[..., 1] = A[..., 0], A[..., 1]
+            variants += [Ce, A * 2.0 ** (30 if t % 2 else -30)]
+        oi = 0
+        for Av in variants:
+            for bp in (True, False):
+                for fmt in ("complex", "quaternion"):
+                    oi += 1
+                    kw = dict(max_iterations=300, seed=seed + t, block_purify=bp, eigenvalue_format=fmt)
+                    if oi % 3 == 0:
+                        kw.update(res_tol=None, eig_tol=1e-8)
+                    with contextlib.redirect_stdout(io.StringIO()):
+                        np.random.seed(seed + t)           # the Hermitian fast path draws its start from the global generator
+                        out = u.power_iteration_nonhermitian(q_from_float(Av), **kw)
+                        np.random.seed(seed + t)
+                        out2 = u.power_iteration_nonhermitian(q_from_float(Av), return_vector=False, **kw)
+                    qv, lamc = out[0], out[1]
+                    qf = q_to_float(np.asarray(qv)).reshape(-1, 4)
+
+                    def parts(l):
+                        if isinstance(l, quaternion.quaternion):
+                            return float(l.w), float(np.sqrt(l.x ** 2 + l.y ** 2 + l.z ** 2)), (l.y == 0 and l.z == 0)
+                        return float(complex(l).real), abs(float(complex(l).imag)), True
+                    re_, im_, insub = parts(lamc)
+                    re2, im2, _ = parts(out2[0])
+                    ev.append({"tid": tid, "ev": "NonHerm", "unit_units": units(abs(float(np.sqrt(np.sum(qf ** 2))) - 1.0), 1.0, 4 * n),
+                               "hermitian": bool(herm), "eig_real": bool(im_ <= 1e-12 * max(1.0, abs(re_)) and insub),
+                               "shape_ok": bool(qf.shape[0] == n and len(out) == 3 and len(out2) == 2
+                                                and isinstance(lamc, quaternion.quaternion) == (fmt == "quaternion")),
+                               "novec_same": bool(re_ == re2 and im_ == im2)})
+        meta[tid] = {"A": A.tolist(), "hermitian": herm, "options": "block_purify x eigenvalue_format x return_vector x (res_tol, eig_tol); plain / complex-embedded / scaled input"}
     return ev, meta
 
 
